@@ -276,13 +276,19 @@ def parallel(ctx: "Ctx", worker, n_items: int, n_workers: int = 12, **kw):
     if n_workers == 1:
         worker(ctx, n_items, **kw)
         return
+    global _PAR_JOB
+    _PAR_JOB = (worker, kw)  # inherited by the forked children (closures/lambdas need not be picklable)
     with mp.get_context("fork").Pool(n_workers) as pool:
-        res = [pool.apply_async(_par_entry, (ctx.prop, ctx.tier, sd, worker, sh, kw)) for sd, sh in zip(seeds, shares)]
+        res = [pool.apply_async(_par_entry, (ctx.prop, ctx.tier, sd, sh)) for sd, sh in zip(seeds, shares)]
         for r in res:
             ctx.merge(r.get(timeout=7200))
 
 
-def _par_entry(prop, tier, seed, worker, n, kw):
+_PAR_JOB = None
+
+
+def _par_entry(prop, tier, seed, n):
+    worker, kw = _PAR_JOB
     sub = Ctx(prop, tier, seed)
     worker(sub, n, **kw)
     return sub.export()
@@ -411,6 +417,19 @@ def _main(mod, ctx: Ctx, args) -> int:
             else:
                 discharged += 1
             axioms_seen[t] = sorted(ax) if ax is not None else None
+    # thorough tier: independent re-check of the compiled proof modules with leanchecker (replays the declarations through the kernel)
+    checker = None
+    if ctx.tier == "thorough" and lean_mods and br.ok:
+        t1 = time.time()
+        lk = _lock()
+        try:
+            pc = subprocess.run(["lake", "env", "leanchecker", *lean_mods], cwd=LEAN, capture_output=True, text=True, timeout=2400)
+        finally:
+            lk.close()
+        checker = {"cmd": "cd lean && lake env leanchecker " + " ".join(lean_mods), "rc": pc.returncode, "wall_s": round(time.time() - t1, 1), "out_tail": (pc.stdout + pc.stderr)[-300:]}
+        if pc.returncode != 0:
+            proof_ok = False
+            ctx.brk("proof", "leanchecker rejected the compiled proof modules", out=(pc.stdout + pc.stderr)[-600:])
     hits = grep_forbidden(lean_mods)
     if hits:
         proof_ok = False
@@ -500,6 +519,7 @@ def _main(mod, ctx: Ctx, args) -> int:
         "correspondence_breaks": len(ctx.breaks),
         "known_findings_matched": sorted(matched),
         "build_wall_s": round(br.wall, 2),
+        "leanchecker": checker,
         "notes": ctx.notes[:20],
     }
     if ctx.exhaustive is not None:
